@@ -15,7 +15,7 @@ import sys
 VERIF = os.path.dirname(os.path.dirname(os.path.abspath(__file__)))
 sys.path.insert(0, VERIF)
 from harness import framework as fw, litmine            # noqa: E402
-from harness.props.c01 import C01, MAX_SIZE             # noqa: E402
+from harness.props.c01 import C01, MAX_SIZE, hist_domain   # noqa: E402
 from harness.props.c02 import C02                        # noqa: E402
 
 
@@ -66,6 +66,8 @@ def main():
             return c['op'] + ' ' + tag
         if tag == 'default':
             return c['op'] + ' default'
+        if tag.startswith('hist:') or tag == 'varint':
+            return 'M ' + c.line
         return None
     got, total = collect(p, tier, seed, nshards, want)
     print('C01 %s seed %d: %d cases over %d shards' % (tier, seed, total, nshards))
@@ -92,11 +94,20 @@ def main():
     ok &= report('default object (shard 0 only)', collections.Counter({k: v for k, v in got.items() if k.endswith(' default')}),
                  ['c01.ser.tx default', 'c01.spec.tx default'])
 
+    mat = collections.Counter({k: v for k, v in got.items() if k.startswith('M ')})
+    exp = ['M ' + '\t'.join(x) for x in hist_domain(p, tier, 'c01')] + ['M ' + op + '\t' + a for op, a in p.varint_domain(tier)]
+    ok &= report('observer-pair matrix + varint', mat, exp)
+
     q = C02()
     q.pool = litmine.pool(fw.REPO, q.anchors)
     q.seed, q.tier = seed, tier
     q.setup()
-    got, total = collect(q, tier, seed, nshards, lambda c: 'default' if c.get('tag') == 'default' else None)
+    got, total = collect(q, tier, seed, nshards, lambda c: 'default' if c.get('tag') == 'default' else
+                         ('M ' + c.line if c.get('tag', '').startswith('hist:') else None))
+    obs = ('ser', 'ser0', 'hash', 'txid', 'pyh', 'eq', 'weight')
+    ok &= report('observer-pair matrix', collections.Counter({k: v for k, v in got.items() if k.startswith('M ')}),
+                 ['M ' + '\t'.join(x) for x in hist_domain(q, tier, 'c02', obs, tuple(o for o in obs if o != 'txid'))])
+    got = collections.Counter({k: v for k, v in got.items() if k == 'default'})
     print('C02 %s seed %d: %d cases over %d shards (no index-partitioned sub-domain; per-shard random families only)'
           % (tier, seed, total, nshards))
     ok &= report('default object (shard 0 only)', got, ['default'])
